@@ -300,3 +300,69 @@ Fixpoint diag_scopes (sh : shape) (tr : list event) (scs : list scope) (acc : li
   end.
 Definition mon_cont_deferred_diag (c : case) : list nat :=
   diag_scopes (fst c) (snd c) (scopes (fst c)) [0; 0; 0; 0].
+
+(* ================= the STRICT reading of "after everything else in that scope" (known finding K2) =================
+   mon_cont_deferred exempts, in clause 5 (other_of), the scope's OWN continuous group from "nothing else of the scope
+   runs once its deferred run has begun" (DESIGN section 11: the engine stops a block's continuous thread in BlockEnd,
+   after BlockPostChecks and BlockDeferredChecks).  The strict monitor removes the exemption for the BEGINNING of runs:
+     20  a run of the scope's continuous group begins after the scope's deferred run has begun;
+     21  a run of the scope's continuous group begins after the scope's post run has begun.
+   At plan level the engine drains the thread before PlanPostChecks / PlanDeferredChecks; at block level it does not:
+   the strict monitor is false on accepted traces (c07_deferred_last_refuted_block). *)
+Definition post_mark (sc : scope) (e : event) : bool :=
+  match e with
+  | EvWrite (OAct (AChk sc' GPost _)) Running 0 _ _ => scope_eqb sc sc'
+  | _ => false
+  end.
+
+(* e begins a run of the scope's own continuous group (a reset write that is not a repeat and opens a run) *)
+Definition cont_begins (sc : scope) (m : mst) (e : event) : bool :=
+  match e with
+  | EvWrite (OAct (AChk sc' GCont i)) Running 0 ok _ =>
+      scope_eqb sc sc'
+      && negb (cell_eqb (iget (m_img m) (OAct (AChk sc' GCont i))) {| c_st := Running; c_n := 0; c_ok := ok |})
+      && match k_mark (m_cont m) i with KBegin _ => true | _ => false end
+  | _ => false
+  end.
+
+Definition sstep_d (sh : shape) (sc : scope) (x : mst * bool) (e : event) : (mst * bool) + nat :=
+  let (m, pb) := x in
+  if cont_begins sc m e && (1 <=? k_runs (m_def m)) then inr 20
+  else if cont_begins sc m e && pb then inr 21
+  else match mstep_d sh sc m e with
+       | inl m' => inl (m', pb || post_mark sc e)
+       | inr c => inr c
+       end.
+
+(* inl final state | inr (code, event index, runs of the continuous group begun so far) *)
+Fixpoint sfold_d (sh : shape) (sc : scope) (x : mst * bool) (tr : list event) (i : nat) : (mst * bool) + (nat * nat * nat) :=
+  match tr with
+  | [] => inl x
+  | e :: tr' => match sstep_d sh sc x e with
+                | inl x' => sfold_d sh sc x' tr' (S i)
+                | inr c => inr (c, i, k_runs (m_cont (fst x)))
+                end
+  end.
+
+Definition strict_scope (sh : shape) (sc : scope) (tr : list event) : bool :=
+  match sfold_d sh sc (m_init sh sc, false) tr 0 with inl _ => true | inr _ => false end.
+
+(* THE STRICT MONITOR *)
+Definition mon_cont_deferred_strict (c : case) : bool :=
+  forallb (fun sc => strict_scope (fst c) sc (snd c)) (scopes (fst c)).
+
+(* [] = holds; [code; event index; scope; run number] for the first scope (plan first) on which it fails *)
+Fixpoint strict_diag (sh : shape) (tr : list event) (scs : list scope) : list nat :=
+  match scs with
+  | [] => []
+  | sc :: scs' => match sfold_d sh sc (m_init sh sc, false) tr 0 with
+                  | inl _ => strict_diag sh tr scs'
+                  | inr (c, i, k) => [c; i; scope_code sc; S k]
+                  end
+  end.
+(* mon_cont_deferred_diag followed by the strict diagnosis (the head stays that of mon_cont_deferred_diag) *)
+Definition mon_cont_deferred_diag2 (c : case) : list nat :=
+  match mon_cont_deferred_diag c with
+  | 0 :: rest => 0 :: rest ++ strict_diag (fst c) (snd c) (scopes (fst c))
+  | r => r
+  end.
